@@ -32,6 +32,10 @@ func NewIssuer(sk *gabikeys.PrivateKey, pk *gabikeys.PublicKey, context *big.Int
 // the proofs containted in the IssueCommitmentMessage! That needs to be done at
 // a higher level!
 func (i *Issuer) IssueSignature(U *big.Int, attributes []*big.Int, witness *revocation.Witness, nonce2 *big.Int, blind []int) (*IssueSignatureMessage, error) {
+	// U and nonce2 come out of the client's commitment message, which may lack them
+	if U == nil || nonce2 == nil {
+		return nil, errors.New("commitment message lacks the commitment U or the nonce")
+	}
 	signature, mIssuer, err := i.signCommitmentAndAttributes(U, attributes, blind)
 	if err != nil {
 		return nil, err
